@@ -665,6 +665,8 @@ func (m *Machine) callBuiltin(caller *frame, callpos token.Pos, fn *ssa.Builtin,
 	case "Slice":
 		n := int(m.concInt(args[1]))
 		switch p := args[0].(type) {
+		case *ReinterpPtr:
+			return m.reinterpSlice(p, n)
 		case *Value:
 			if p == nil {
 				if n != 0 {
@@ -813,6 +815,11 @@ func (m *Machine) conv(tdst, tsrc types.Type, x Value) Value {
 			switch ud := ud.(type) {
 			case *types.Pointer:
 				u := x.(UPtr)
+				if u.T != nil && !types.Identical(u.T.Underlying(), ud.Elem().Underlying()) && (u.P != nil || u.S != nil) {
+					if fb, tb := basicOf(u.T), basicOf(ud.Elem()); fb != nil && tb != nil && fb.Info()&types.IsInteger != 0 && tb.Info()&types.IsInteger != 0 {
+						return &ReinterpPtr{U: u, To: ud.Elem()}
+					}
+				}
 				if u.P != nil {
 					return u.P
 				}
@@ -962,3 +969,40 @@ func (m *Machine) conv(tdst, tsrc types.Type, x Value) Value {
 }
 
 var _ = math.Abs
+
+// ReinterpPtr is a pointer obtained by casting *T1 -> unsafe.Pointer -> *T2 for integer types.
+type ReinterpPtr struct {
+	U  UPtr
+	To types.Type
+}
+
+// reinterpSlice implements unsafe.Slice((*T2)(unsafe.Pointer(&x)), n): a little-endian view of the
+// integer cells as n elements of the narrower type (a copy: writes through the view are not supported).
+func (m *Machine) reinterpSlice(p *ReinterpPtr, n int) Value {
+	fw, _, _ := intWidth(basicOf(p.U.T).Kind())
+	tw, _, _ := intWidth(basicOf(p.To).Kind())
+	if tw > fw || fw%tw != 0 {
+		m.unsupported("unsafe reinterpretation %s -> %s", p.U.T, p.To)
+	}
+	var cells []Value
+	if p.U.S != nil {
+		cells = p.U.S
+	} else {
+		cells = []Value{*p.U.P}
+	}
+	per := fw / tw
+	out := make([]Value, n)
+	for i := 0; i < n; i++ {
+		ci := i / per
+		if ci >= len(cells) {
+			// beyond the extent of the variable (undefined behaviour natively): unconstrained-as-zero, recorded
+			m.stubs["unsafe.Slice view beyond the variable's extent (bytes read as 0)"]++
+			out[i] = BV(tw, 0)
+			continue
+		}
+		c := cells[ci].(*Term)
+		k := i % per
+		out[i] = Extract(c, (k+1)*tw-1, k*tw)
+	}
+	return out
+}
